@@ -41,14 +41,14 @@ func (f famT) family() chainx.Family {
 
 // trieT is the state trie of the source at one height, as a DAG of hashes.
 type trieT struct {
-	Root  util.Uint256
-	Nodes map[util.Uint256][]byte         // serialized nodes as a peer sends them
-	Kids  map[util.Uint256][]util.Uint256 // distinct children
-	Pre   map[util.Uint256]int            // first position in the pre-order traversal
-	List  []util.Uint256                  // pre-order, distinct
-	Sub   map[util.Uint256][]util.Uint256 // pre-order of the subtree (what a peer answers to a request of the hash)
-	Multi int                             // hashes reachable along more than one path
-	MultiInner int                        // ... of them branch/extension nodes
+	Root       util.Uint256
+	Nodes      map[util.Uint256][]byte         // serialized nodes as a peer sends them
+	Kids       map[util.Uint256][]util.Uint256 // distinct children
+	Pre        map[util.Uint256]int            // first position in the pre-order traversal
+	List       []util.Uint256                  // pre-order, distinct
+	Sub        map[util.Uint256][]util.Uint256 // pre-order of the subtree (what a peer answers to a request of the hash)
+	Multi      int                             // hashes reachable along more than one path
+	MultiInner int                             // ... of them branch/extension nodes
 }
 
 func (t *trieT) closure(set []util.Uint256) int {
@@ -77,12 +77,12 @@ type srcT struct {
 	names  []string
 	id     string
 	tip    uint32
-	blocks [][]byte               // i -> height i+1
-	obs    []*chainx.Obs          // i -> height i+1 (full observation of the reference replica)
-	lite   []map[string]string    // height -> observation without execution results
-	stor   []map[string]string    // height -> full contract storage
-	mptd   []string               // height -> digest/count of the key-value pairs enumerated through the state trie
-	tries  map[uint32]*trieT      // per sync point
+	blocks [][]byte            // i -> height i+1
+	obs    []*chainx.Obs       // i -> height i+1 (full observation of the reference replica)
+	lite   []map[string]string // height -> observation without execution results
+	stor   []map[string]string // height -> full contract storage
+	mptd   []string            // height -> digest/count of the key-value pairs enumerated through the state trie
+	tries  map[uint32]*trieT   // per sync point
 	items  map[uint32][]storage.KeyValue
 	alien  map[uint32][][]byte // per sync point: valid nodes of the trie at another height, absent from this one
 	maxID  int32
